@@ -43,10 +43,11 @@ pub fn gen_case(rng: &mut Rng, quick: bool) -> Case {
     let msgs = (0..n)
         .map(|_| {
             let len = if rng.chance(1, 10) { *rng.pick(&BIG) } else if rng.chance(1, 3) { rng.usize(300) } else { *rng.pick(&SIZES) };
-            let mode = match rng.below(8) {
+            let mode = match rng.below(10) {
                 0 | 1 | 2 => ReadMode::Eager,
                 3 | 4 => ReadMode::Chunks,
                 5 | 6 => ReadMode::Lazy,
+                7 | 8 => ReadMode::LateAll,
                 _ => ReadMode::Abandon,
             };
             (rng.below(3) as u8, len, mode)
